@@ -991,6 +991,11 @@ impl<T, S: Status> Drop for Drain<'_, T, S> {
                 unsafe { slot.data.assume_init_drop() };
             }
         }
+        // `RawTable::drain()` counts every slot as free, so no tombstone may
+        // remain behind the last element.
+        for slot in &mut self.iter {
+            slot.status = S::FREE;
+        }
     }
 }
 
